@@ -106,6 +106,7 @@ fn main() {
                 "receive" => probe::time_step("receive", &model),
                 "instantiate" => probe::instantiate_period(&model),
                 "derive" => probe::derive(&model),
+                "paginate" => probe::paginate(&model),
                 other => serde_json::json!({"reproduced": false, "error": format!("unknown probe {other}")}),
             };
             println!("{}", serde_json::to_string(&r).unwrap());
